@@ -13,6 +13,12 @@ def pyIndex (l : List Int) (i : Int) : R Int :=
   else if -n ≤ i ∧ i < 0 then .ok (l.getD (i + n).toNat 0)
   else .error .indexError
 
+/-- Python `l[i]` on a list of objects (an array): negative indices count from the end, `IndexError` outside. -/
+def pyListIndex {α} (l : Array α) (i : Int) : R α :=
+  let n : Int := l.size
+  let j := if i < 0 then i + n else i
+  if 0 ≤ j ∧ j < n then (match l[j.toNat]? with | some v => .ok v | none => .error .indexError) else .error .indexError
+
 /-- Python `d[i]` on a constant dict whose keys are exactly 0 … n-1 (given as the list of its values): `KeyError`
     for every other key (no negative-index wrap-around, unlike a list). -/
 def pyDictIndex (l : List Int) (i : Int) : R Int :=
@@ -27,6 +33,16 @@ def PyDict.get {α} (d : PyDict α) (k : Int) : R α :=
   | none => .error .keyError
 def PyDict.set {α} (d : PyDict α) (k : Int) (v : α) : PyDict α := fun j => if j = k then some v else d j
 
+/-- a `LocalDateTime` of which only `_to_local_instant()` (its nanoseconds on the local timeline) is read -/
+structure LdtObj where
+  localInstant : Int
+  deriving DecidableEq, Repr, Inhabited
+
+/-- an ISO `LocalDate` of which only the day number (`_days_since_epoch`) is read -/
+structure IsoDate where
+  days : Int
+  deriving DecidableEq, Repr, Inhabited
+
 /-- `_YearStartCacheEntry`: its one attribute, the packed `days << 7 | validator` -/
 structure CacheEntry where
   value : Int
@@ -39,6 +55,15 @@ structure YMD where
   month : Int
   day : Int
   deriving DecidableEq, Repr, Inhabited
+
+/-- the raw value of a `_YearMonthDay` built from fields in range: `(year-1) << 11 | (month-1) << 6 | (day-1)` has
+    disjoint bit fields, so it is this sum (C12 `unpack_pack`); the comparison operators of `_YearMonthDay` compare it -/
+def YMD.packed (a : YMD) : Int := (a.year - 1) * 2048 + (a.month - 1) * 64 + (a.day - 1)
+def YMD.lt (a b : YMD) : Bool := decide (a.packed < b.packed)
+def YMD.le (a b : YMD) : Bool := decide (a.packed ≤ b.packed)
+def YMD.gt (a b : YMD) : Bool := decide (a.packed > b.packed)
+def YMD.ge (a b : YMD) : Bool := decide (a.packed ≥ b.packed)
+def YMD.compareTo (a b : YMD) : Int := a.packed - b.packed
 
 /-- `IsoDayOfWeek(n)`: the IntEnum lookup succeeds for 0 … 7 (NONE, MONDAY … SUNDAY) and raises ValueError otherwise -/
 def isoDayOfWeek (n : Int) : R Int := if 0 ≤ n ∧ n ≤ 7 then .ok n else .error .valueError
